@@ -2070,6 +2070,10 @@ int32 matrixSslGetSessionId(ssl_t *ssl, sslSessionId_t *session)
         session->sessionTicket != NULL && session->sessionTicketLen > 0)
     {
         session->cipherId = ssl->cipher->ident;
+        /* The server sent no session id: a session id kept from an earlier
+           handshake belongs to a different master secret. Forget it. */
+        Memset(session->id, 0x0, SSL_MAX_SESSION_ID_SIZE);
+        session->idLen = 0;
         Memcpy(session->masterSecret, ssl->sec.masterSecret,
             SSL_HS_MASTER_SIZE);
         return PS_SUCCESS;
